@@ -250,8 +250,22 @@ func tieObs(before, after *Dump, errClass string) []string {
 		return []string{"res EAddNotNull"}
 	case "refused-exists":
 		return []string{"res EExists"}
-	default:
+	case "refused-no-such-table":
+		return []string{"res ENoSuchTable"}
+	case "refused-no-such-column":
+		return []string{"res ENoSuchColumn"}
+	case "refused-generated":
+		return []string{"res EGenerated"}
+	case "refused-arity":
+		return []string{"res EArity"}
+	case "refused-unique", "refused-check", "refused-fk", "refused-fk-mismatch", "refused-strict-type",
+		"refused-no-such-index", "refused-default-type", "refused-fkcheck-scan", "refused-datatype":
+		// constraints the abstract engine does not model: the run is left to the oracle
 		return nil
+	default:
+		// a refusal the planner is not expected to provoke (syntax error, non-constant default in
+		// ADD COLUMN, ...): the model never prints this, so the run shows up as a disagreement
+		return []string{"res unexpected-refusal:" + errClass}
 	}
 	out := []string{"res ok"}
 	names := append([]string(nil), after.Names...)
